@@ -5,6 +5,8 @@ package main
 // ops (grammar in ds.go):
 //   ds.raw  <auto|man> <r> <nc> <samples>   -> the aggregate chunks DownsampleRaw / downsampleRawLoop produce
 //   ds.read <r> <nc> <samples>              -> the five aggregates read back through the querier
+//   (ds.raw with strictly increasing timestamps of which some are < 0: oracle asks only for Σ count = #non-NaN;
+//    class negative-timestamp-samples-lost, a registered finding)
 //   ds.cs   <list>|<list>|…                 -> query.chunkSeriesIterator over arbitrary chunk lists
 //                                              (malformed stream: overlapping / unordered chunks; no oracle)
 //
@@ -38,6 +40,25 @@ func execC36(c *hlib.Ctx, tok []string) string {
 	}
 	switch tok[0] {
 	case "ds.raw":
+		if negativeOnly(cs.ts, cs.r1) && cs.nc1 >= 1 {
+			// strictly increasing timestamps, some of them before 1970: only the total count is asked for
+			c.Count("oracle:negative-timestamps")
+			want, got := 0.0, 0.0
+			for _, v := range cs.vs {
+				if !math.IsNaN(v) {
+					want++
+				}
+			}
+			for _, ch := range cs.l1 {
+				for _, p := range ch.lists[0] {
+					got += p.v
+				}
+			}
+			if got != want {
+				c.Violation("negative-timestamp-samples-lost", fmt.Sprintf("series with timestamps < 0: Σcount=%v but %v non-NaN raw samples", got, want))
+			}
+			return out
+		}
 		if !inDomain(cs.ts, cs.r1) || cs.nc1 < 1 {
 			c.Count("oracle:skipped-out-of-domain")
 			return out
@@ -72,6 +93,23 @@ func execC36(c *hlib.Ctx, tok []string) string {
 		checkWindows(c, cs.ts, cs.vs, cs.r1, lists)
 	}
 	return out
+}
+
+// negativeOnly: strictly increasing timestamps, resolution > 0, and at least one timestamp < 0.
+func negativeOnly(ts []int64, r int64) bool {
+	if r <= 0 || len(ts) == 0 {
+		return false
+	}
+	neg := false
+	for i, t := range ts {
+		if i > 0 && ts[i-1] >= t {
+			return false
+		}
+		if t < 0 {
+			neg = true
+		}
+	}
+	return neg
 }
 
 // checkChunkShape: alignment of the four aggregates, meta ranges, ordering of the chunks.
@@ -226,6 +264,22 @@ func genC36(c *hlib.Ctx) {
 		c.Count("malformed:raw")
 		nc := rr.Range(0, len(ts)+1)
 		c.Do(fmt.Sprintf("ds.raw man %d %d %s", r, nc, samplesField(ts, vals)), true)
+	}
+	for i := 0; i < m/3; i++ {
+		r := resolutions[rr.Intn(len(resolutions))]
+		ts, vals := genSeries(c, r, genOpt{})
+		if len(ts) > 40 {
+			ts, vals = ts[:40], vals[:40]
+		}
+		if len(ts) == 0 {
+			continue
+		}
+		shift := ts[0] + rr.I64Range(1, 3*r) // strictly increasing, starts before 0
+		for k := range ts {
+			ts[k] -= shift
+		}
+		c.Count("negative-timestamps")
+		c.Do(fmt.Sprintf("ds.raw man %d %d %s", r, rr.Range(1, len(ts)+1), samplesField(ts, vals)), true)
 	}
 	for i := 0; i < m; i++ {
 		c.Count("malformed:cs")
